@@ -933,11 +933,22 @@ def int_to_str(v):
     while not (v < lim):
         nd += 1
         lim *= 10
-    out = []
-    p = 10 ** (nd - 1)
-    for _ in range(nd):
-        out.append((v // p) % 10 + 48)
-        p //= 10
+    # Digits as fresh variables tied to v by a linear constraint: the
+    # div/mod-by-constant rendering stalls bit-blasting, while
+    # v == sum(d_k * 10^k) with 0 <= d_k <= 9 determines the digits uniquely.
+    path = cur()
+    ds = []
+    total = None
+    for k in range(nd):
+        d = z3.BitVec(path.fresh_name('digit'), W)
+        path.assume(z3.ULE(d, 9))
+        ds.append(d)
+        term = d * (10 ** k)
+        total = term if total is None else total + term
+    if nd > 1:
+        path.assume(ds[-1] != 0)
+    path.assume(v.e == total)
+    out = [SInt(d + 48, 48, 57) for d in reversed(ds)]
     return make(STR, out)
 
 
